@@ -177,8 +177,8 @@ func ruleSignalTable(c *core.Ctx) {
 	const rule = "C13.table"
 	rm := c.Func("bus", "signalHandler", "removeSignalUser")
 	add := c.Func("bus", "signalHandler", "addSignalUser")
-	sigF := c.Field("bus", "signalHandler", "signals")
-	userID := c.Field("bus", "signalUser", "userID")
+	sigF := fld(c, "bus", "signalHandler", "signals")
+	userID := fld(c, "bus", "signalUser", "userID")
 	if rm == nil || add == nil || sigF == nil || userID == nil {
 		c.Undecided(rule, "bus.signalHandler", token.NoPos, "anchor not found")
 		return
